@@ -5,6 +5,13 @@ import json, os, subprocess
 HERE = os.path.dirname(os.path.dirname(os.path.abspath(__file__)))
 
 CHECKS = {
+    "C19": dict(
+        category="fault_enumeration",
+        technique="resource-fault injection: the native stack budget (main thread / 2 MiB thread, debug / release build) is the injected limit; every grid cell runs in an isolated worker process and the exit status is the oracle",
+        text="Grid of 36 scenarios (car/cdr/vector/quote nesting x read, quote-evaluate, build, keep live across a forced collection, equal?, write, drop; closure and continuation chains; non-tail recursion; nested expressions) x depth 10^3/10^4/10^5 x two stack budgets x two build profiles = 432 cells, each executed in its own process; a cell passes if the worker completes or returns an error. Thorough runs the whole grid (exhaustive over the grid), quick a seeded sample of 160 cells plus every cell listed as a known finding. 209 cells abort on the pinned tree and are listed as known findings (removing the recursion from parser, compiler, converter, marker, equal?, printer and drop is not a small patch); any other aborting cell is a VIOLATION.",
+        note="Outcomes near the stack limit were surveyed under three environment sizes; no cell flipped (c19_unstable_cells.json is empty). A 120 s watchdog per worker turns hangs into notes.",
+        design="§5 C19",
+    ),
     "C01": dict(
         category="exploration",
         technique="deterministic simulation of REPL sessions: seeded session histories (definitions, redefinitions, expressions) checked form by form against an executable reference CEK machine, with a fresh-VM twin under a permuted closure-slot order and inserted unrelated definitions",
@@ -46,6 +53,13 @@ CHECKS = {
         text="Seeded search over (program, collection schedule): generated sessions and allocation-heavy templates run under every-k, every-instruction, Bernoulli, burst, production-policy and between-form schedules; every form's value, failure, output, stack trace and instruction count is compared with a twin VM in which no collection happens, and an independent reachability audit (safety I1, bookkeeping I3, intern table I4) runs after every collection. Evidence from sampling, not proof.",
         note="Trusted: hook H3 enters the VM's own run_gc (only its utilisation test is skipped); the auditor's own root enumeration and traversal; Suppress mode as 'no collection'.",
         design="§5 C03, §4.4",
+    ),
+    "C11": dict(
+        category="fault_enumeration",
+        technique="deterministic simulation of the terminal -> validator -> evaluator loop with input delivered in seeded chunks and the end of input injected at every token boundary (enumerated) and at seeded mid-token positions",
+        text="For each generated sequence of quoted well-formed data the scanner's spans must equal the generator's token boundaries and satisfy the span invariants; the simulated front-end loop (chunks, validate, evaluate one datum, trimmed remaining text) must visit each datum once in order within #data + #chunks iterations; the end of input is injected after EVERY token of every text: complete data are consumed and the rest is reported Incomplete, never an error, and a complete datum is never Incomplete. A quarter of the runs feed token soup, random Unicode, mutations and mid-token cuts for totality, span invariants and progress.",
+        note="EOF positions are enumerated per text, texts are sampled. The two front-end loops are re-implemented in the harness after marwood-repl/src/main.rs and marwood-wasm/src/lib.rs (rustyline and JS cannot be linked); lex::scan, parse::parse, parse_text and Vm::eval_text are the real ones.",
+        design="§5 C11",
     ),
     "C12": dict(
         category="exploration",
@@ -113,7 +127,7 @@ def main():
         })
     manifest = {
         "version": 1,
-        "setup_cmd": "cd /verif/sim && CARGO_NET_OFFLINE=true cargo build --release --offline",
+        "setup_cmd": "cd /verif/sim && CARGO_NET_OFFLINE=true cargo build --release --offline && CARGO_NET_OFFLINE=true cargo build --offline",
         "hooks": {
             "guard": "cargo feature verif-hooks of crate marwood (default off)",
             "enable": "the simulator crate /verif/sim depends on marwood by path (/repo/marwood) with features = [\"verif-hooks\"]",
